@@ -327,14 +327,15 @@ fn tier_runs(prop: Prop, tier: &str) -> u64 {
     if tier == "quick" {
         quick
     } else {
-        quick * 60
+        quick * 40
     }
 }
 
 fn cmd_check(prop: Prop, tier: &str) -> i32 {
     let seed: u64 = std::env::var("VERIF_SEED").ok().and_then(|s| s.trim().parse().ok()).unwrap_or(1);
     let known = load_known();
-    let prof = profile_for(prop);
+    let mut prof = profile_for(prop);
+    prof.deep = tier == "thorough";
     let runs = tier_runs(prop, tier);
     let workers: usize = std::env::var("VERIF_WORKERS").ok().and_then(|s| s.parse().ok()).unwrap_or_else(|| std::thread::available_parallelism().map(|n| n.get()).unwrap_or(4).min(16));
     let deadline_ms: u64 = if tier == "quick" { 240_000 } else { 900_000 };
@@ -448,7 +449,7 @@ fn cmd_check(prop: Prop, tier: &str) -> i32 {
     cov.set(
         "rule",
         J::s(&format!(
-            "one evaluation = one simulated run (seeded schedule + fault sequence + workload on 2-5 real MCTPSMBusContext nodes, <= {} scheduler steps (per-run budget 80/250/600), then a fault-free drain); run i of a batch is a pure function of (VERIF_SEED, i). A run is non-trivial when at least one {} oracle was evaluated on an in-domain event; distinct = distinct 64-bit FNV digests of the complete event log (frames, faults, deliveries, results) among non-trivial runs, counted with a hash set.",
+            "one evaluation = one simulated run (seeded schedule + fault sequence + workload on 2-5 real MCTPSMBusContext nodes, <= {} scheduler steps (per-run budget 80/250/600, thorough 80/250/600/1200; one run in 256, thorough one in 64, is a 4000-step soak run), then a fault-free drain); run i of a batch is a pure function of (VERIF_SEED, i). A run is non-trivial when at least one {} oracle was evaluated on an in-domain event; distinct = distinct 64-bit FNV digests of the complete event log (frames, faults, deliveries, results) among non-trivial runs, counted with a hash set.",
             600,
             prop.id()
         )),
@@ -574,7 +575,8 @@ fn cmd_replay(path: &str) -> i32 {
         .map(|b| b.as_arr().map(|a| a.iter().map(|v| v.as_i64().unwrap_or(0) as u32).collect()).unwrap_or_default())
         .collect();
     let known = load_known();
-    let prof = profile_for(prop);
+    let mut prof = profile_for(prop);
+    prof.deep = j.get("tier").and_then(|t| t.as_str()) == Some("thorough");
     let mut st = Stats::default();
     let out = run_one(&prof, Chooser::replay(choices), &mut st, &known, true);
     for l in out.trace.clone().unwrap_or_default() {
